@@ -92,7 +92,8 @@ def make_single(ctx, rel, B, log, bmode, n, shape, spin=False, bb=None, Bbig=Non
         anc = sorted((v for v in hv if isinstance(v, str) and v.startswith('__a')), key=lambda s: int(s[3:]))
         obs.append(Ob('variables are P\'s variables plus fresh __a names', (hv - set(anc)) <= set(labels),
                       info={'variables': sorted(map(repr, hv))}))
-        obs.append(Ob('ancilla names are __a0..__a(m-1)', anc == ['__a%d' % i for i in range(len(anc))], info={'anc': anc}))
+        # a name may be skipped (an ancilla whose terms all cancelled, e.g. the sign bit of `0 != 0` with user bounds), so contiguity is not demanded
+        obs.append(Ob('ancilla names are __a<i> with i < num_ancillas', all(a[3:].isdigit() and int(a[3:]) < num_anc for a in anc), info={'anc': anc, 'num_ancillas': num_anc}))
         obs.append(Ob('num_ancillas covers the ancillas present', num_anc >= len(anc), info={'num_ancillas': num_anc, 'anc': anc}))
         if len(anc) > 7:
             return obs + [Ob('OUTSIDE-BOUND: more ancillas than the harness expands', True, info={'anc': anc})]
